@@ -92,6 +92,44 @@ fn srv_prefix_probe() -> String {
 
 /// For every 32-bit word w in [lo, hi): Tag::from_wire(le(w)) must be Ok(t) exactly when
 /// le(w) == t.wire_value(). Prints "TAGSWEEP-OK n" or the first counterexample.
+/// every 4-byte word that differs from a known tag's wire value in at most two byte positions
+/// (18 * (1 + 4*255 + 6*255*255) words): the neighbourhood where a mistyped or "legacy" spelling lives
+pub fn tagnear() {
+    let tags: Vec<Tag> = enum_iterator::all::<Tag>().collect();
+    let mut n = 0u64;
+    for t in &tags {
+        let w = t.wire_value();
+        for i in 0..4 {
+            for j in i..4 {
+                for a in 0..=255u8 {
+                    for b in 0..=255u8 {
+                        if i == j && b != 0 {
+                            continue;
+                        }
+                        let mut x = [w[0], w[1], w[2], w[3]];
+                        x[i] = a;
+                        if i != j {
+                            x[j] = b;
+                        }
+                        let expect = tags.iter().find(|u| u.wire_value() == x);
+                        let got = Tag::from_wire(&x).ok();
+                        n += 1;
+                        match (expect, got) {
+                            (None, None) => {}
+                            (Some(u), Some(v)) if *u == v => {}
+                            _ => {
+                                println!("TAGSWEEP-DIFF word={:02x}{:02x}{:02x}{:02x} (bytes in wire order) expect={:?} got={:?}", x[0], x[1], x[2], x[3], expect, got);
+                                return;
+                            }
+                        }
+                    }
+                }
+            }
+        }
+    }
+    println!("TAGSWEEP-OK {} near", n);
+}
+
 pub fn tagsweep(lo: u64, hi: u64) {
     let tags: Vec<Tag> = enum_iterator::all::<Tag>().collect();
     let mut hits = 0u64;
